@@ -120,3 +120,6 @@ def rules(ctx):
     from . import common_backend as B
     B.prep_reset(ctx, "C07.prep-reset")
     ctx.floor("C07.prep-reset", 12)
+    from . import common_gauss as _G7, c08 as _c8
+    ctx.shared(_G7.footprint, "C07.gauss-footprint")
+    ctx.shared(_c8.register_shape, "C07.register-shape")
